@@ -51,6 +51,10 @@
 
 
 #define EC_CURVE_CALC_BYTES(curve) (((curve)->m + 7) / 8)
+/* Max size of scalar (private key, < n): order may be longer than field
+ * (secp160k1, secp160r1, secp160r2, secp224k1). */
+#define EC_CURVE_CALC_SCALAR_BYTES(curve)				\
+    MAX(EC_CURVE_CALC_BYTES(curve), ((bn_calc_bits(&(curve)->n) + 7) / 8))
 /* Double size + 1 digit. */
 #define EC_CURVE_CALC_BITS_DBL(curve)	(BN_DIGIT_BITS + (2 * (curve)->m))
 
